@@ -310,6 +310,33 @@ pub fn run(op: &str, a: &Args) -> Option<Args> {
             };
             vec![texts_ok, bool_codes(r)]
         }
+        "c20.regexp_flags" => {
+            // regexp_is_match with a pattern array and a per-row flags array (the kernel caches compiled regexes)
+            let layout = to_usize(&a[0]);
+            let n = usize::try_from(&a[0][1]).unwrap();
+            let k = usize::try_from(&a[0][2]).unwrap();
+            let vv = to_bools(&a[1]);
+            let pv = to_bools(&a[2]);
+            let fl = to_i64s(&a[3]);
+            let ix = to_i64s(&a[4]);
+            let hs = split_rows(a, 5, n);
+            let ps = split_rows(a, 5 + n, k);
+            let ts = split_rows(a, 5 + n + k, k);
+            let texts_ok: Group = ps.iter().zip(&ts).map(|(p, t)| BigInt::from((like_to_regex_text(s(p)).as_bytes() == &t[..]) as u8)).collect();
+            let arr = build(layout, &hs, &vv, false);
+            let rtexts: Vec<Vec<u8>> = (0..n).map(|i| ts[ix[i] as usize].clone()).collect();
+            let rarr = build(layout, &rtexts, &pv, false);
+            // a null flag hides "i" underneath: it must be read as "no flags"
+            let flags: Vec<Vec<u8>> = fl.iter().map(|f| match f { 0 => b"".to_vec(), 1 => b"i".to_vec(), 2 => b"s".to_vec(), 3 => b"is".to_vec(), 4 => b"m".to_vec(), _ => b"i".to_vec() }).collect();
+            let fvalid: Vec<bool> = fl.iter().map(|f| *f >= 0).collect();
+            let farr = build(layout, &flags, &fvalid, false);
+            let r = match layout {
+                0 => regexp_is_match(arr.as_string::<i32>(), rarr.as_string::<i32>(), Some(farr.as_string::<i32>())),
+                1 => regexp_is_match(arr.as_string::<i64>(), rarr.as_string::<i64>(), Some(farr.as_string::<i64>())),
+                _ => regexp_is_match(arr.as_string_view(), rarr.as_string_view(), Some(farr.as_string_view())),
+            };
+            vec![texts_ok, bool_codes(r)]
+        }
         _ => return None,
     })
 }
@@ -623,7 +650,7 @@ fn gen_strings(tier: &str, r: &mut Rng, emit: &mut dyn FnMut(Case)) {
 
 fn gen_regexp(tier: &str, r: &mut Rng, emit: &mut dyn FnMut(Case)) {
     let alpha: Vec<&str> = FULL.to_vec();
-    for i in 0..(if tier == "thorough" { 4000 } else { 400 }) {
+    for i in 0..(if tier == "thorough" { 3000 } else { 300 }) {
         let array = i % 2;
         let layout = (i / 2) % 3;
         let k = if array == 0 { 1 } else { 1 + r.below(3) };
@@ -645,8 +672,56 @@ fn gen_regexp(tier: &str, r: &mut Rng, emit: &mut dyn FnMut(Case)) {
     }
 }
 
+/// regexp_is_match with per-row flags: few distinct pattern texts repeated over many rows, each row with its own
+/// flags from {None, "", "i", "s", "is", "m"}; haystacks are instances of the row's pattern with ASCII case swapped
+/// and newlines / extra lines added, so that every flag changes some row's result.
+fn gen_regexp_flags(tier: &str, r: &mut Rng, emit: &mut dyn FnMut(Case)) {
+    const ASCII: [&str; 16] = ["a", "A", "b", "B", "k", "K", "%", "_", "_", "\\", ".", "*", "\n", "[", "$", "^"];
+    for i in 0..(if tier == "thorough" { 2000 } else { 220 }) {
+        let layout = i % 3;
+        // even cases: ASCII text, all flags; odd cases: the full alphabet, flags without "i" (case folding is
+        // specified for ASCII only)
+        let ascii = i % 2 == 0;
+        let alpha: &[&str] = if ascii { &ASCII } else { &FULL };
+        let k = 1 + r.below(3);
+        let lit = |r: &mut Rng, n: usize| -> String { (0..1 + r.below(n)).map(|_| *r.pick(alpha)).filter(|c| !matches!(*c, "%" | "\\")).collect() };
+        let pats: Vec<String> = (0..k).map(|_| match r.below(6) {
+            0 => lit(r, 4), 1 => format!("{}%", lit(r, 4)), 2 => format!("%{}", lit(r, 4)), 3 => format!("{}_{}", lit(r, 3), lit(r, 3)),
+            4 => format!("{}%{}", lit(r, 3), lit(r, 3)),
+            _ => String::from_utf8(rand_string(r, alpha, 6)).unwrap() }).collect();
+        let texts: Vec<String> = pats.iter().map(|p| like_to_regex_text(p)).collect();
+        let n = 24 + r.below(40);
+        let with_empty_flag = i % 8 == 7;      // "(?)" does not compile: the whole call is an error
+        let ix: Vec<usize> = (0..n).map(|_| r.below(k)).collect();
+        let fl: Vec<i64> = (0..n).map(|_| {
+            if with_empty_flag && r.chance(1, 12) { 0 }
+            else if ascii { *r.pick(&[-1i64, -1, 1, 1, 2, 3, 4]) } else { *r.pick(&[-1i64, 2, 4]) } }).collect();
+        let hs: Vec<Vec<u8>> = (0..n).map(|j| {
+            let base = if r.chance(1, 5) { rand_string(r, alpha, 8) } else { instantiate(r, &pats[ix[j]], alpha) };
+            let mut h: String = String::from_utf8(base).unwrap().chars().map(|c|
+                if c.is_ascii_alphabetic() && r.bool() { if c.is_ascii_lowercase() { c.to_ascii_uppercase() } else { c.to_ascii_lowercase() } } else { c }).collect();
+            match r.below(6) {
+                0 => h.insert_str(0, "b\n"),        // the instance is the last line
+                1 => h.push_str("\na"),             // the instance is the first line
+                2 => { h.insert_str(0, "\n"); h.push('\n'); }
+                3 => { let cs: Vec<char> = h.chars().collect(); let p = r.below(cs.len() + 1); h = cs[..p].iter().chain(['\n'].iter()).chain(cs[p..].iter()).collect(); }
+                _ => {}
+            }
+            h.into_bytes()
+        }).collect();
+        let (vv, pv) = (validity(r, n, 10), validity(r, n, 10));
+        let mut args: Args = vec![vec![layout.into(), n.into(), k.into()], gbools(vv.iter().copied()), gbools(pv.iter().copied()),
+                                  fl.iter().map(|f| BigInt::from(*f)).collect(), ix.iter().map(|x| BigInt::from(*x)).collect()];
+        for h in &hs { args.push(gbytes(h)); }
+        for p in &pats { args.push(gbytes(p.as_bytes())); }
+        for t in &texts { args.push(gbytes(t.as_bytes())); }
+        emit(Case::new("c20.regexp_flags", args, &["c20.regexp_flags.spec"], format!("regexp flags l{layout} ascii{} k{k} e{}", ascii as u8, with_empty_flag as u8)));
+    }
+}
+
 pub fn generate(tier: &str, r: &mut Rng, emit: &mut dyn FnMut(Case)) {
     gen_strings(tier, r, emit);
     gen_regexp(tier, r, emit);
+    gen_regexp_flags(tier, r, emit);
     gen_likes(tier, r, emit);
 }
